@@ -730,6 +730,10 @@ func (ip *Interp) call(fr *frame, call *ast.CallExpr, want types.Type) *Value {
 		ip.fail(fr, call, "call of a function value")
 		return nil
 	}
+	if b, isB := fr.info.Uses[id].(*types.Builtin); isB && b.Name() == "len" && len(call.Args) == 1 {
+		// the length of an input slice is a fresh 64-bit input named after the slice
+		return &Value{V: Input("len("+types.ExprString(call.Args[0])+")", 64), Sign: true}
+	}
 	fn, _ := fr.info.Uses[id].(*types.Func)
 	if fn == nil {
 		ip.fail(fr, call, "unresolved callee %s", id.Name)
